@@ -4,7 +4,7 @@ use crate::props::pp::{self, Oracles};
 
 pub fn build(tier: Tier) -> Check<'static> {
     let mut c = Check::new("C05", tier, "6/C05");
-    c.rule = "every program = [definition of B: none | object-like | function-like] definition of A (6 formal lists x every body of <= 2 (quick) / 3 (thorough) tokens of a 13-token alphabet with paste, `\", `\\`\", strings, nested usages, continuation) marker usage-of-A (10 actual-argument forms) marker; plus 22 hand-picked shapes (redefinition between uses, usage inside actuals and bodies, caller-supplied and body-less macros, recursion, brackets/braces/strings with commas); x layouts; non-trivial as in C04".into();
+    c.rule = "every program = [definition of B: none | object-like | function-like] definition of A (6 formal lists x every body of <= 2 (quick) / 3 (thorough) tokens of a 13-token alphabet with paste, `\", `\\`\", strings, nested usages, continuation) marker usage-of-A (10 actual-argument forms) marker; plus 22 hand-picked shapes (redefinition between uses, usage inside actuals and bodies, caller-supplied and body-less macros, recursion, brackets/braces/strings with commas); x layouts; plus every ordered pair of definitions of one name followed by a usage; non-trivial as in C04".into();
     c.assumptions = vec!["reference preprocessor models/ppref.rs; surplus actual arguments are outside the statement and skipped; expansions that do not lex make the model abstain".into()];
     let or = Oracles { lexemes: true, ..Default::default() };
     {
@@ -17,6 +17,12 @@ pub fn build(tier: Tier) -> Check<'static> {
         let sp = pp::macro_extra_profile();
         c.parts.push(Part::new("macro-shapes", sp.len(), "hand-picked shapes", move |i, acc| {
             pp::check_prog(acc, &sp.get(i), or, "macro shapes");
+        }));
+    }
+    {
+        let sp = pp::redefine_profile();
+        c.parts.push(Part::new("redefinitions", sp.len(), "every ordered pair of definitions of one name (8 formal lists x 2 texts; the first from the source or the caller) followed by a usage: the latest definition decides", move |i, acc| {
+            pp::check_prog(acc, &sp.get(i), or, "redefinitions");
         }));
     }
     c
